@@ -3,7 +3,7 @@
 //! functions: AstSize::cost Extractor::extract WithOrdRev::cmp WithOrdRev::partial_cmp
 //! Bound: AstSize::cost on nodes with 0..4 children and child costs from {0, 1, 2, 7, u64::MAX-1, u64::MAX};
 //! WithOrdRev::partial_cmp / cmp on all pairs of costs from {0, 1, 2, 3, 10, u64::MAX}.
-//! Extractor::new / Extractor::extract (outside the contracts: BinaryHeap, class_nf, usages): 9 hand-written e-graphs
+//! Extractor::new / Extractor::extract (outside the contracts: BinaryHeap, class_nf, usages): 12 hand-written e-graphs
 //! with redundant slots / symmetric classes plus 150 (deep: 3000) pseudo-random ones (a term of depth <= 3 over a
 //! lambda/arithmetic language, a random subset of 17 rules, <= 3 rounds, <= 300 nodes); after every round EVERY class is
 //! extracted with AstSize (public entry point) and with three cost functions of the kinds C06 names (size, depth-weighted
@@ -110,6 +110,19 @@ fn reference_costs(eg: &XG, cf: &Lin) -> std::collections::HashMap<Id, u64> {
         if !changed { return cost; }
     }
 }
+/// invocations returned by earlier insertions (their classes may have been merged away or have lost slots since): the
+/// extracted term must denote exactly the invocation asked for
+fn old_handles_ok(eg: &XG, handles: &[(String, AppliedId)]) -> Result<(), String> {
+    for (t, h) in handles {
+        let ex = ast_size_extract(h, eg);
+        match crate::lookup_rec_expr(&ex, eg) {
+            None => return Err(format!("C06:extract.member the handle {:?} returned for {}: the extracted term {} is not in the e-graph", h, t, ex)),
+            Some(b) => if !eg.eq(h, &b) { return Err(format!("C06:extract.member the handle {:?} returned for {} (now {:?}): the extracted term {} denotes {:?}", h, t, eg.find_applied_id(h), ex, b)); }
+        }
+    }
+    Ok(())
+}
+fn subterms_x(re: &RecExpr<XL>, out: &mut Vec<RecExpr<XL>>) { for c in &re.children { subterms_x(c, out); } out.push(re.clone()); }
 fn extraction_ok(eg: &XG) -> Result<usize, String> {
     let mut k = 0;
     // the crate's own AstSize through the public entry point
@@ -191,6 +204,10 @@ pub fn run(only: &[String]) -> Vec<String> {
             (vec!["(lam $1 (mul (var $1) (var $2)))", "(lam $1 (mul (var $1) (var $3)))"], vec![(0, 1)]),
             (vec!["(add (sub (var $1) (var $1)) (var $2))", "(g one)", "(sub (var $3) (var $3))"], vec![(1, 2)]),
             (vec!["(g (f3 (var $4) (var $2) (var $3)))", "(f3 (var $1) (var $4) (var $2))"], vec![(0, 1)]),
+            // handles of classes that are merged away (the other class is bigger), with one and two slots, permuted arguments
+            (vec!["(sub (var $1) (var $2))", "(add (var $2) (var $1))", "(g (add (var $2) (var $1)))", "(mul (add (var $2) (var $1)) one)"], vec![(0, 1)]),
+            (vec!["(g (var $1))", "(add (var $1) (var $1))", "(g (add (var $1) (var $1)))", "(mul (add (var $1) (var $1)) one)"], vec![(0, 1)]),
+            (vec!["(lam $1 (add (var $1) (var $2)))", "(g (var $2))", "(mul (g (var $2)) (g (var $2)))", "(sub (g (var $2)) one)"], vec![(0, 1)]),
             // a constant together with a composite term that is cheaper under the per-operator weights, and classes above it
             (vec!["zero", "(g one)"], vec![(0, 1)]),
             (vec!["(add zero (var $1))", "zero", "(g (g one))"], vec![(1, 2)]),
@@ -201,6 +218,8 @@ pub fn run(only: &[String]) -> Vec<String> {
             let mut eg = XG::default();
             let ids: Vec<AppliedId> = adds.iter().map(|t| eg.add_expr(RecExpr::<XL>::parse(t).unwrap())).collect();
             for (a, b) in &unions { eg.union(&ids[*a], &ids[*b]); }
+            let hs: Vec<(String, AppliedId)> = adds.iter().map(|t| t.to_string()).zip(ids.iter().cloned()).collect();
+            if let Err(e) = old_handles_ok(&eg, &hs) { if n < 3 { n += 1; let (c, m) = e.split_once(' ').unwrap(); fails.push(format!("FAIL Extractor::extract {} after add {:?}; union {:?}: {}", c, adds, unions, m)); } }
             if let Err(e) = extraction_ok(&eg) { if n < 3 { n += 1; let (c, m) = e.split_once(' ').unwrap(); fails.push(format!("FAIL Extractor::extract {} after add {:?}; union {:?}: {}", c, adds, unions, m)); } }
         }
         let seeds: u64 = if deep { verif_scale(3000) } else { 150 };
@@ -211,11 +230,13 @@ pub fn run(only: &[String]) -> Vec<String> {
             let used: Vec<&str> = (0..17).filter(|i| mask & (1 << i) != 0).map(|i| XRULES[i].0).collect();
             let rws: Vec<Rewrite<XL, ()>> = (0..17).filter(|i| mask & (1 << i) != 0).map(|i| Rewrite::new(XRULES[i].0, XRULES[i].1, XRULES[i].2)).collect();
             let mut eg = XG::default();
-            eg.add_expr(RecExpr::<XL>::parse(&t).unwrap());
+            let mut subs = Vec::new(); subterms_x(&RecExpr::<XL>::parse(&t).unwrap(), &mut subs);
+            let hs: Vec<(String, AppliedId)> = subs.iter().map(|s| (s.to_string(), eg.add_expr(s.clone()))).collect();
             for round in 0..3 {
                 if eg.total_number_of_nodes() > 300 { break; }
                 verif_case(format!("extract every class after round {} of rules {:?} on {} (seed {})", round, used, t, seed));
                 apply_rewrites(&mut eg, &rws);
+                if let Err(e) = old_handles_ok(&eg, &hs) { if n < 3 { n += 1; let (c, m) = e.split_once(' ').unwrap(); fails.push(format!("FAIL Extractor::extract {} term {} rules {:?} round {} (seed {}): {}", c, t, used, round, seed, m)); } break; }
                 if let Err(e) = extraction_ok(&eg) { if n < 3 { n += 1; let (c, m) = e.split_once(' ').unwrap(); fails.push(format!("FAIL Extractor::extract {} term {} rules {:?} round {} (seed {}): {}", c, t, used, round, seed, m)); } break; }
             }
         }
